@@ -204,14 +204,16 @@ type model struct {
 	n       int
 }
 
-func (m *model) add(r row) {
+// add folds a row into the model; sums are kept in the universe's value encoding.
+func (m *model) add(kd *kind, r row) {
+	e := kd.enc(r.v)
 	if !m.present[r.k] {
 		m.present[r.k] = true
-		m.sum[r.k] = r.v
+		m.sum[r.k] = e
 		m.n++
 		return
 	}
-	m.sum[r.k] += r.v
+	m.sum[r.k] += e
 }
 
 func (m *model) clear() { *m = model{} }
@@ -220,7 +222,7 @@ func (m *model) String(kd *kind) string {
 	var parts []string
 	for k := 0; k < nKeys; k++ {
 		if m.present[k] {
-			parts = append(parts, fmt.Sprintf("%s=%s:%d", roleNames[k], kd.str(kd.keys[k]), m.sum[k]))
+			parts = append(parts, fmt.Sprintf("%s=%s:%s", roleNames[k], kd.str(kd.keys[k]), kd.vstr(m.sum[k])))
 		}
 	}
 	return "{" + strings.Join(parts, " ") + "}"
